@@ -54,6 +54,8 @@ type Batch struct {
 	Samples      []json.RawMessage `json:"samples"`
 	WallMS       int64             `json:"wall_ms"`
 	RaceReports  int               `json:"race_reports"`
+	BaseRuns     int               `json:"base_runs"`
+	Enumerated   int               `json:"enumerated"`
 }
 
 func fatal(f string, a ...interface{}) {
@@ -148,65 +150,83 @@ func cmdRun(args []string) {
 	fps := map[uint64]struct{}{}
 	t0 := time.Now()
 	race0 := simrt.RaceErrors()
+	nbase := 0
 	for n := 0; n < *count; n++ {
 		if *budget > 0 && time.Since(t0) > *budget {
 			break
 		}
 		i := *start + n**stride
-		sc := generate(def, *seed, *tier, i)
-		hi := o.Execute(sc, nil, false, nil)
-		b.Runs++
-		b.Steps += hi.Res.Steps
-		b.SimTimeNS += hi.Res.SimTime
-		b.Goroutines += int64(hi.Res.Goroutines)
-		b.Outcomes[hi.Res.Outcome.String()]++
-		b.Strategies[sc.Sched.Strategy]++
-		nt := def.NonTrivial(hi)
-		if nt {
-			b.NonTrivial++
-			fps[hi.Res.Fingerprint] = struct{}{}
-		}
-		o.CountReach(hi, b.Faults, b.Probes)
-		vs := def.Judge(hi)
-		if rd := hi.Res.RaceErrors - race0; rd > 0 && simrt.RaceEnabled() {
-			race0 = hi.Res.RaceErrors
-			b.RaceReports += rd
-			if *prop == "C10" {
-				vs = append(vs, &o.Violation{Prop: "C10", Oracle: "data-race", Msg: fmt.Sprintf("the race detector reported %d data race(s) during this run (see the worker's stderr for the stacks)", rd)})
+		base := generate(def, *seed, *tier, i)
+		queue := []*h.Scenario{base}
+		nbase++
+		for qi := 0; qi < len(queue); qi++ {
+			if qi > 0 && *budget > 0 && time.Since(t0) > *budget+*budget/4 {
+				break
 			}
-		}
-		// determinism self-check on a sample of runs
-		if n%97 == 3 {
-			hi2 := o.Execute(sc, hi.Res.Choices, true, nil)
-			b.Rechecks++
-			if hi2.Res.TraceHash != hi.Res.TraceHash {
-				b.Mismatch++
+			sc := queue[qi]
+			hi := o.Execute(sc, nil, false, nil)
+			if qi == 0 && def.Expand != nil {
+				vs := def.Expand(sc, hi, o.NewRand(sc.Seed^0x5bd1e995), *tier)
+				queue = append(queue, vs...)
+				b.Enumerated += len(vs)
 			}
-		}
-		if len(b.Samples) < 3 && nt {
-			sm, _ := json.Marshal(map[string]interface{}{"index": i, "seed": sc.Seed, "scenario": sc, "steps": hi.Res.Steps, "schedule_prefix": prefix(hi.Res.Choices, 48)})
-			b.Samples = append(b.Samples, sm)
-		}
-		for _, v := range vs {
-			if id := o.MatchKnown(hi, v); id != "" {
-				v.Known = id
-				b.Known[id]++
-				if _, ok := b.KnownSample[id]; !ok {
-					b.KnownSample[id] = v.Oracle + ": " + firstLine(v.Msg)
+			b.Runs++
+			b.Steps += hi.Res.Steps
+			b.SimTimeNS += hi.Res.SimTime
+			b.Goroutines += int64(hi.Res.Goroutines)
+			b.Outcomes[hi.Res.Outcome.String()]++
+			b.Strategies[sc.Sched.Strategy]++
+			nt := def.NonTrivial(hi)
+			if nt {
+				b.NonTrivial++
+				fps[hi.Res.Fingerprint] = struct{}{}
+			}
+			o.CountReach(hi, b.Faults, b.Probes)
+			vs := def.Judge(hi)
+			if rd := hi.Res.RaceErrors - race0; rd > 0 && simrt.RaceEnabled() {
+				race0 = hi.Res.RaceErrors
+				b.RaceReports += rd
+				if *prop == "C10" {
+					vs = append(vs, &o.Violation{Prop: "C10", Oracle: "data-race", Msg: fmt.Sprintf("the race detector reported %d data race(s) during this run (see the worker's stderr for the stacks)", rd)})
 				}
-				continue
 			}
-			path := fmt.Sprintf("%s/tmp-%s-%s.json", *replayDir, *prop, hex(sc.Seed))
-			rp := &Replay{Prop: v.Prop, Oracle: v.Oracle, Msg: v.Msg, Tier: *tier, BaseSeed: *seed, Index: i, Scenario: sc, Choices: hi.Res.Choices,
-				TraceHash: hex(hi.Res.TraceHash), Steps: hi.Res.Steps}
-			writeJSON(path, rp)
-			b.Violations = append(b.Violations, path)
-			break
+			// determinism self-check on a sample of runs
+			if b.Runs%97 == 3 {
+				hi2 := o.Execute(sc, hi.Res.Choices, true, nil)
+				b.Rechecks++
+				if hi2.Res.TraceHash != hi.Res.TraceHash {
+					b.Mismatch++
+				}
+			}
+			if len(b.Samples) < 3 && nt {
+				sm, _ := json.Marshal(map[string]interface{}{"index": i, "variant": qi, "seed": sc.Seed, "scenario": sc, "steps": hi.Res.Steps, "schedule_prefix": prefix(hi.Res.Choices, 48)})
+				b.Samples = append(b.Samples, sm)
+			}
+			for _, v := range vs {
+				if id := o.MatchKnown(hi, v); id != "" {
+					v.Known = id
+					b.Known[id]++
+					if _, ok := b.KnownSample[id]; !ok {
+						b.KnownSample[id] = v.Oracle + ": " + firstLine(v.Msg)
+					}
+					continue
+				}
+				path := fmt.Sprintf("%s/tmp-%s-%s-%d.json", *replayDir, *prop, hex(sc.Seed), qi)
+				rp := &Replay{Prop: v.Prop, Oracle: v.Oracle, Msg: v.Msg, Tier: *tier, BaseSeed: *seed, Index: i, Scenario: sc, Choices: hi.Res.Choices,
+					TraceHash: hex(hi.Res.TraceHash), Steps: hi.Res.Steps}
+				writeJSON(path, rp)
+				b.Violations = append(b.Violations, path)
+				break
+			}
+			if len(b.Violations) >= *maxViol {
+				break
+			}
 		}
 		if len(b.Violations) >= *maxViol {
 			break
 		}
 	}
+	b.BaseRuns = nbase
 	for f := range fps {
 		b.Fingerprints = append(b.Fingerprints, hex(f))
 	}
